@@ -17,7 +17,7 @@ def run(tier, seed):
     t0 = time.time()
     quick = tier == 'quick'
     tbuild = common.build_mmdump()
-    mirs = [common.dump_mir('mimium_lang')[0], common.dump_mir('state_tree')[0]]
+    mirs = common.prog_mirs()
     groups = ['op', 'st', 'ct', 'cl', 'gn', 'fx']
     files = common.corpus_files(groups, tier, seed)
     steps = 3 if quick else 6
